@@ -39,6 +39,7 @@ from __future__ import annotations
 from .c16_ext import r1_roles, r2_mirror, r3_envelope
 from .c16_uf import r4_cache_purity, r5_documented_factors, r6_exits_and_typing
 from .c16_labels import r7_rows_by_label
+from .c16_alias import r8_events_untouched
 
 RULES = [
     ("C16-R1", r1_roles, 60),
@@ -48,6 +49,7 @@ RULES = [
     ("C16-R5", r5_documented_factors, 58),
     ("C16-R6", r6_exits_and_typing, 94),
     ("C16-R7", r7_rows_by_label, 20),
+    ("C16-R8", r8_events_untouched, 4),
 ]
 LEVEL = "other"
 EXPLANATION = ("Static, on values: every path of cla.extrema (both arms, first and later cases, with and without abscissae and case numbers) keeps "
